@@ -30,7 +30,7 @@ def objective(E, M, rvec, xabs):
 
 
 def mk_model(E, n, m, num_pts, npt_so_far, with_h=False, xr=True, with_save=None, box=True, cnt_hi=3,
-             nan_strong=True, kopt_minimal=True):
+             nan_strong=True, kopt_minimal=True, scaling=False):
     """
     An arbitrary Model state satisfying the bookkeeping invariant:
       objval[k] = F(fval_v[k], xbase+points[k]);  kopt minimal (NaN-aware);  nsamples >= 1;
@@ -45,7 +45,14 @@ def mk_model(E, n, m, num_pts, npt_so_far, with_h=False, xr=True, with_save=None
         E.assume(E.all([xl[i] <= xb[i] for i in range(n)] + [xb[i] <= xu[i] for i in range(n)]))
     r0 = E.vec('r0_', m, xr=xr)
     h = mk_h(E, n) if with_h else None
-    M = Model(num_pts, xb, r0, xl, xu, [], 1, h=h, argsh=(), do_logging=False)
+    sc = None
+    if scaling:
+        # internal scaling record (lower, upper - lower, upper) in user units: h is always evaluated at the UN-scaled point
+        shift = E.vec('shift', n)
+        scale = E.vec('scale', n)
+        E.assume(E.all([scale[i] > 0 for i in range(n)]))
+        sc = (shift, scale, shift + scale)
+    M = Model(num_pts, xb, r0, xl, xu, [], 1, h=h, argsh=(), do_logging=False, scaling_changes=sc)
     M.npt_so_far = npt_so_far
     # slot 0 may also have moved away from the base point
     for k in range(npt_so_far):
@@ -128,6 +135,7 @@ PRESETS = {
     'regression-momentum': (False, {'regression.num_extra_steps': 1, 'regression.momentum_extra_steps': True}),
     'regression-geom': (False, {'regression.num_extra_steps': 1}),
     'growing': (False, {'growing.ndirs_initial': 1, 'growing.num_new_dirns_each_iter': 1, 'growing.do_geom_steps': True}),
+    'growing-2dirs': (False, {'growing.ndirs_initial': 1, 'growing.num_new_dirns_each_iter': 2, 'growing.do_geom_steps': False}),
     'growing-perturb': (False, {'growing.ndirs_initial': 1, 'growing.full_rank.use_full_rank_interp': False,
                                 'growing.perturb_trust_region_step': True}),
     'growing-safety-geom': (False, {'growing.ndirs_initial': 1, 'growing.safety.full_geom_step': True}),
@@ -200,7 +208,7 @@ def mk_controller(E, n, m, num_pts, npt_so_far, preset='default', with_h=False, 
     np = E.np
     maxfun = E.int('maxfun', 1, maxfun_hi)
     params = mk_params(E, n, num_pts, maxfun, preset)
-    M, ghost = mk_model(E, n, m, num_pts, npt_so_far, with_h=with_h, xr=xr, with_save=with_save, kopt_minimal=kopt_minimal)
+    M, ghost = mk_model(E, n, m, num_pts, npt_so_far, with_h=with_h, xr=xr, with_save=with_save, kopt_minimal=kopt_minimal, scaling=scaling)
     Controller = E.get('Controller')
     rhobeg = E.real('rhobeg', npy=False)
     rhoend = E.real('rhoend', npy=False)
@@ -228,11 +236,5 @@ def mk_controller(E, n, m, num_pts, npt_so_far, preset='default', with_h=False, 
     C.last_run_fopt = E.real('lrf', npy=False)
     C.num_slow_iters = E.int('nslow', 0, None)
     if scaling:
-        # internal scaling record as solve builds it: (lower, upper - lower, upper) in user units
-        shift = E.vec('shift', n)
-        scale = E.vec('scale', n)
-        E.assume(E.all([scale[i] > 0 for i in range(n)]))
-        sc = (shift, scale, shift + scale)
-        C.scaling_changes = sc
-        M.scaling_changes = sc
+        C.scaling_changes = M.scaling_changes      # the record built in mk_model: (lower, upper - lower, upper) in user units
     return C, M, ghost, params
